@@ -75,13 +75,13 @@ Definition split_step (st : split_state) (c : N) : split_state * option str :=
     else if c =? c_dquote then
       match q with
       | QNo => ({| quotes := QDouble; current := cur; escaped := esc; closed_quote := cq |}, None)
-      | QDouble => ({| quotes := QNo; current := cur; escaped := esc; closed_quote := cq |}, None) (* TODAY *)
+      | QDouble => ({| quotes := QNo; current := cur; escaped := esc; closed_quote := true |}, None)
       | QSingle => push
       end
     else if c =? c_squote then
       match q with
       | QNo => ({| quotes := QSingle; current := cur; escaped := esc; closed_quote := cq |}, None)
-      | QSingle => ({| quotes := QNo; current := cur; escaped := esc; closed_quote := cq |}, None) (* TODAY *)
+      | QSingle => ({| quotes := QNo; current := cur; escaped := esc; closed_quote := true |}, None)
       | QDouble => push
       end
     else push.
